@@ -40,8 +40,64 @@ def pairing(a_list, b_list):
 
 
 def poly_zero(e):
-    d = z3.simplify(e, som=True, flat=True)
-    return z3.is_rational_value(d) and d.numerator_as_long() == 0
+    """polynomial identity by normalisation: z3's sum-of-monomials rewriting, iterated to a fixed point (one pass does not distribute nested
+    products of sums)"""
+    d = e
+    for _ in range(8):
+        d2 = z3.simplify(d, som=True, flat=True)
+        if z3.is_rational_value(d2):
+            return d2.numerator_as_long() == 0
+        if d2.eq(d):
+            break
+        d = d2
+    return _poly_zero_expand(d)
+
+
+def _poly_zero_expand(e, limit=4000):
+    """second normaliser: full expansion with sympy (z3's rewriter does not distribute products of several sums).  Sub-terms that are not polynomial
+    (quotients by non-numerals, ite, ghost-function applications) are opaque symbols keyed by their text: identical sub-terms are identified, which is
+    sound for proving an identity (never used to refute one)"""
+    import sympy
+    cache, atoms = {}, {}
+    count = [0]
+
+    def conv(t):
+        k = t.get_id()
+        if k in cache:
+            return cache[k]
+        count[0] += 1
+        if count[0] > limit:
+            raise OverflowError
+        if z3.is_int_value(t):
+            r = sympy.Integer(t.as_long())
+        elif z3.is_rational_value(t):
+            r = sympy.Rational(t.numerator_as_long(), t.denominator_as_long())
+        elif z3.is_app(t) and t.decl().kind() == z3.Z3_OP_ADD:
+            r = sympy.Add(*[conv(c) for c in t.children()])
+        elif z3.is_app(t) and t.decl().kind() == z3.Z3_OP_MUL:
+            r = sympy.Mul(*[conv(c) for c in t.children()])
+        elif z3.is_app(t) and t.decl().kind() == z3.Z3_OP_SUB:
+            ch = [conv(c) for c in t.children()]
+            r = ch[0] - sympy.Add(*ch[1:])
+        elif z3.is_app(t) and t.decl().kind() == z3.Z3_OP_UMINUS:
+            r = -conv(t.arg(0))
+        elif z3.is_app(t) and t.decl().kind() == z3.Z3_OP_TO_REAL:
+            r = conv(t.arg(0))
+        elif z3.is_app(t) and t.decl().kind() == z3.Z3_OP_DIV and z3.is_rational_value(t.arg(1)) and t.arg(1).numerator_as_long() != 0:
+            r = conv(t.arg(0)) / conv(t.arg(1))
+        elif z3.is_app(t) and t.decl().kind() == z3.Z3_OP_POWER and z3.is_int_value(t.arg(1)) and 0 <= t.arg(1).as_long() <= 6:
+            r = conv(t.arg(0)) ** t.arg(1).as_long()
+        else:
+            key = t.sexpr()
+            if key not in atoms:
+                atoms[key] = sympy.Symbol(f'v{len(atoms)}')
+            r = atoms[key]
+        cache[k] = r
+        return r
+    try:
+        return sympy.expand(conv(e)) == 0
+    except (OverflowError, RecursionError):
+        return False
 
 
 def out_entries(y):
